@@ -260,6 +260,18 @@ def valid_message(rng: random.Random) -> Tuple[bytes, str]:
         r2 = random.Random(rng.random())
         comp = lambda suffix: r2.random() < 0.5  # noqa
     b = wire.Builder(comp)
+    if rng.random() < 0.06:
+        # names met (and pointed to) beyond offset 256 / 512 / ... / 8192: every bit of a 14-bit pointer gets used. Only the
+        # independent encoder can build this - the library's own splits long before
+        pad = rng.choice([250, 500, 1010, 2040, 4090, 8180]) + rng.randrange(0, 60)
+        b.record(1, pool.get(), 16, 1, 120, gen.txt_of_size(rng, pad))
+        for _ in range(rng.choice([2, 3, 6])):
+            s = gen.gen_record(rng, pool, rng.choice(["A", "PTR", "SRV", "AAAA"]), size_hint=0)
+            b.record(1, s[1], gen.TYPE_OF[s[0]], s[2], s[3], H._wire_rdata(s))
+        data = b.finish(0, 0x8400)
+        if len(data) <= MAX:
+            return data, "valid-wire-high-offsets-%s" % mode
+        b = wire.Builder(comp)
     nq = rng.choice([0, 0, 1, 2, 5])
     for _ in range(nq):
         q = gen.gen_question(rng, pool)
